@@ -138,6 +138,7 @@ broadcast use {crate::iter_items_array, crate::iter_items_vec};
             old(self)@.len() + crate::iter_items(words).len() > 4096 ==> r is Err""",
           note='generic IntoIterator loop: iterator laws of an abstract I cannot be discharged; bounded Kani check through public callers', props=('C05', 'C08')),
         sop('reserve_zeroed', 'sp_reserve'),
+        F('reserve', requires=WF, ensures=WFE + ', final(self)@ == old(self)@', props=('C05',)),
         sop('load', 'sp_load'),
         sop('store', 'sp_store', rewrites=[]),
         sop('dup_from', 'sp_dup_from', closures={'.and_then(': {'params': 'i: usize', 'ret': 'o: Option<usize>',
